@@ -2423,7 +2423,7 @@ fn core_word_length(xs: &mut State) -> Xresult {
     let val = xs.pop_data()?;
     match val.value() {
         Cell::Vector(x) => xs.push_data(Cell::from(x.len())),
-        Cell::Str(x) => xs.push_data(Cell::from(x.len())),
+        Cell::Str(x) => xs.push_data(Cell::from(x.chars().count())),
         Cell::Bitstr(bs) => xs.push_data(Cell::from(bs.len())),
         val => Err(Xerr::type_not_supported(val.clone())),
     }
